@@ -2,6 +2,7 @@ package checks
 
 import (
 	"go/ast"
+	"go/constant"
 	"go/token"
 	"go/types"
 	"sort"
@@ -50,7 +51,7 @@ func kcFacts(g *engine.Graph, target *engine.Site) []kcFact {
 func kcFactsOfGates(fn *engine.Fn, gates []engine.Gate) []kcFact {
 	var out []kcFact
 	for _, gt := range gates {
-		out = append(out, kcSplitFacts(kcExpandCond(fn, gt.Cond, 3), gt.OnTrue)...)
+		out = append(out, kcSplitFacts(kcExpandCond(fn, gt.Full(), 3), gt.OnTrue)...)
 	}
 	return out
 }
@@ -78,7 +79,7 @@ func kcGates(g *engine.Graph, target *engine.Site) []engine.Gate {
 	gs := g.Gates(target)
 	out := make([]engine.Gate, len(gs))
 	for i, gt := range gs {
-		out[i] = engine.Gate{Cond: kcExpandCond(g.Fn, gt.Cond, 3), OnTrue: gt.OnTrue, Block: gt.Block}
+		out[i] = engine.Gate{Cond: kcExpandCond(g.Fn, gt.Full(), 3), OnTrue: gt.OnTrue, Block: gt.Block}
 	}
 	return out
 }
@@ -712,6 +713,11 @@ func kcCallerTable(c *engine.Ctx, p *engine.Prog, rule, key string, refs []engin
 	kcAt(c, p, rule, key, token.NoPos, len(extra) == 0, "referenced from "+join(callers)+"; not in the confirmed table: "+join(extra))
 	var missing []string
 	for _, m := range engine.SetDiff(must, callers) {
+		// an expected referrer that no longer exists (inlined into its caller, renamed) is
+		// not a failure; only one that exists and stopped reaching the construct is
+		if len(callers) == 0 || p.Func(m) == nil {
+			continue
+		}
 		if !kcReachesAny(p, m, callers, 3) {
 			missing = append(missing, m)
 		}
@@ -1162,4 +1168,89 @@ func kcOwnerRoot(p *engine.Prog, fn *engine.Fn, depth int) *engine.Fn {
 		return fn
 	}
 	return owner
+}
+
+// kcReachableWith reports whether site can execute when the variable v holds
+// the constant value val (nil val: a value different from every constant it is
+// compared with). Conditions that compare v with constants (==, !=, tagged
+// switch cases on v, combined with && || !) are decided; all others are
+// followed on both branches. Works for switch statements and if-chains alike.
+func kcReachableWith(f *engine.Fn, site *engine.Site, v types.Object, val constant.Value) bool {
+	g := f.Graph()
+	info := f.Info()
+	var eval func(e ast.Expr) (bool, bool)
+	eval = func(e ast.Expr) (bool, bool) {
+		switch x := ast.Unparen(e).(type) {
+		case *ast.UnaryExpr:
+			if x.Op == token.NOT {
+				r, k := eval(x.X)
+				return !r, k
+			}
+		case *ast.BinaryExpr:
+			switch x.Op {
+			case token.LAND, token.LOR:
+				a, ka := eval(x.X)
+				b, kb := eval(x.Y)
+				if x.Op == token.LAND {
+					if (ka && !a) || (kb && !b) {
+						return false, true
+					}
+					return a && b, ka && kb
+				}
+				if (ka && a) || (kb && b) {
+					return true, true
+				}
+				return a || b, ka && kb
+			case token.EQL, token.NEQ:
+				l, r := ast.Unparen(x.X), ast.Unparen(x.Y)
+				if engine.ObjOf(info, r) == v && kcIsIdent(r) {
+					l, r = r, l
+				}
+				if engine.ObjOf(info, l) != v || !kcIsIdent(l) {
+					return false, false
+				}
+				tv, ok := info.Types[r]
+				if !ok || tv.Value == nil {
+					return false, false
+				}
+				eq := val != nil && constant.Compare(val, token.EQL, tv.Value)
+				if x.Op == token.NEQ {
+					return !eq, true
+				}
+				return eq, true
+			}
+		}
+		return false, false
+	}
+	seen := map[*cfg.Block]bool{}
+	stack := []*cfg.Block{g.CFG.Blocks[0]}
+	for len(stack) > 0 {
+		b := stack[len(stack)-1]
+		stack = stack[:len(stack)-1]
+		if seen[b] {
+			continue
+		}
+		seen[b] = true
+		if b == site.Block {
+			return true
+		}
+		succs := b.Succs
+		if len(succs) == 2 {
+			if cond := g.CondOf(b); cond != nil {
+				full := ast.Expr(cond)
+				if tag := g.TagOf(cond); tag != nil {
+					full = &ast.BinaryExpr{X: tag, Op: token.EQL, Y: cond}
+				}
+				if r, known := eval(full); known {
+					if r {
+						succs = succs[:1]
+					} else {
+						succs = succs[1:]
+					}
+				}
+			}
+		}
+		stack = append(stack, succs...)
+	}
+	return false
 }
